@@ -1885,14 +1885,19 @@ pub fn c08(ix: &Index) -> Vec<Viol> {
     let mut out = Vec::new();
     let h = ix.h;
     let leak_shape = start_after_commit_possible(h);
-    let overflow = fill_involved(h);
+    // a full queue matters only if its thread went on issuing commands while it was full
+    let overflow = fill_involved(h)
+        && h.hooks.iter().any(|e| {
+            matches!(&e.kind, HookKind::Command { kind: "fill-done", .. })
+                && h.hooks.iter().any(|l| l.vt == e.vt && l.t > e.t && matches!(&l.kind, HookKind::Command { kind, .. } if *kind != "fill-done"))
+        });
     for s in &h.stats {
         if s.final_ {
             if s.s.active_collectors != 0 || s.s.buffered_span_sets != 0 || s.s.danglings != 0 {
-                let sig = if overflow {
-                    "retained-after-quiescence:queue-full"
-                } else if leak_shape {
+                let sig = if leak_shape {
                     "retained-after-quiescence:start-after-commit"
+                } else if overflow {
+                    "retained-after-quiescence:queue-full"
                 } else {
                     "retained-after-quiescence"
                 };
